@@ -3,6 +3,8 @@ import LunarVerif.Proofs.C12Abs
 import LunarVerif.Proofs.C12Plugins
 import LunarVerif.Proofs.C12Throttle
 import LunarVerif.Proofs.C12Live
+import LunarVerif.Proofs.C12Conc
+import LunarVerif.Proofs.C12Shared
 /-!
 # C12 — Stored responses are replayed only for the same key and only while fresh
 
@@ -177,6 +179,107 @@ example : (let c0 : Cache Nat Nat := Cache.init 0 true 10
 example : ((run (Cache.init 0 true 4 : Cache Nat Nat) [.set 1 7 5 3, .set 2 8 5 2, .get 2]).map fun r =>
     match r.out with | .setRes .full => 1 | .got none => 2 | _ => 0) = [0, 1, 2] := by decide
 
+/-! ## raw cache, concurrent callers: ALL schedules of the critical sections
+
+`IState` (Model/C12Conc.lean): every call is a thread; `run j` executes thread `j`'s next critical section
+(Set: pre-check | clock read | write-locked (re-check +) insert | sleeper start; Get/Has: read-locked lookup |
+clock read; Del: locked delete); sleepers fire at any instant ≥ due; the clock moves between any two sections.
+`recheck = true` is the repaired `Set` (fixes/F12c.patch), `false` the code before it. -/
+
+section
+variable {κ ν : Type} [DecidableEq κ] [DecidableEq ν]
+
+/-- Replay correctness survives every interleaving, with or without the re-check: in the observable log of any
+    schedule, a Get that returns `v` (a Has that returns true) read the clock at `tc ≤ stamp + ttl` of the most
+    recent successful `Set` of that key that preceded its map lookup — and that Set stored `v`. -/
+theorem hit_only_same_key_and_fresh_all_schedules (cfg : Cfg) (recheck : Bool) (sched : List (Sched κ ν)) :
+    iholdsRev false cfg (iexec (IState.init (cfg.init : Cache κ ν) recheck) sched).hist = true :=
+  (hinv_iexec cfg sched _ (hinv_init cfg recheck)).log
+
+/-- The same, spelled out for one Get. -/
+theorem hit_all_schedules_explicit (cfg : Cfg) (recheck : Bool) (sched : List (Sched κ ν))
+    (newer older : List (IRec κ ν)) (k : κ) (v : ν) (tc : Int) (pos : Nat)
+    (hsplit : (iexec (IState.init (cfg.init : Cache κ ν) recheck) sched).hist
+      = newer ++ .ret k (some v) tc pos :: older) :
+    pos ≤ older.length ∧ ∃ st ttl, lastIns k (oldest older pos) = some (v, st, ttl) ∧ tc ≤ st + ttl := by
+  have h := hit_only_same_key_and_fresh_all_schedules cfg recheck sched
+  rw [hsplit] at h
+  have : ∀ (a b : List (IRec κ ν)), iholdsRev false cfg (a ++ b) = true → iholdsRev false cfg b = true := by
+    intro a b
+    induction a with
+    | nil => intro x; simpa using x
+    | cons y ys ih => intro x; simp only [List.cons_append, iholdsRev, Bool.and_eq_true] at x; exact ih x.2
+  have h2 := this _ _ h
+  simp only [iholdsRev, iRecOk, Bool.and_eq_true, decide_eq_true_eq] at h2
+  obtain ⟨⟨hp, hf⟩, _⟩ := h2
+  refine ⟨hp, ?_⟩
+  cases hl : lastIns k (oldest older pos) with
+  | none => simp [hl, freshIns] at hf
+  | some x =>
+    obtain ⟨v', st, ttl⟩ := x
+    simp only [hl, freshIns, Bool.and_eq_true, decide_eq_true_eq] at hf
+    exact ⟨st, ttl, by rw [hf.1], hf.2⟩
+
+/-- Connection theorem for the repaired code, ALL schedules: the judge predicate (hits justified AND every probe
+    sees held ≤ tracked ≤ max) is true of the observable log. -/
+theorem conc_holds (cfg : Cfg) (hmax : 0 ≤ cfg.max) (sched : List (Sched κ ν)) :
+    iholdsRev true cfg (iexec (IState.init (cfg.init : Cache κ ν) true) sched).hist = true := by
+  have k := kinv_iexec cfg sched (IState.init (cfg.init : Cache κ ν) true)
+    ⟨hinv_init cfg true, zinv_init cfg hmax true, rfl, rfl⟩
+  exact (iholdsRev_true_iff cfg _).mpr ⟨k.h.log, k.p⟩
+
+/-- "The cache never holds more than its configured size" for ALL schedules (repaired `Set`). -/
+theorem size_le_max_all_schedules (cfg : Cfg) (hmax : 0 ≤ cfg.max) (hon : cfg.sizeOn = true)
+    (sched : List (Sched κ ν)) :
+    let s := iexec (IState.init (cfg.init : Cache κ ν) true) sched
+    (heldSize s.c.entries : Int) ≤ s.c.tracked ∧ s.c.tracked ≤ cfg.max := by
+  have z := zinv_iexec cfg sched (IState.init (cfg.init : Cache κ ν) true) (zinv_init cfg hmax true)
+  have hr : (iexec (IState.init (cfg.init : Cache κ ν) true) sched).recheck = true :=
+    (kinv_iexec cfg sched _ ⟨hinv_init cfg true, zinv_init cfg hmax true, rfl, rfl⟩).r
+  exact ⟨z.held hon, z.strict hon hr⟩
+
+/-- The tight bound that holds WITHOUT the re-check (the code before fixes/F12c.patch), all schedules:
+    held ≤ tracked ≤ max + over, where the ghost counter `over` adds the size of every Set that inserted while
+    another Set was between its pre-check and its insert (so k Sets that pass the pre-check together can
+    overshoot by the sizes of k − 1 of them, and a schedule without such overlap keeps `over = 0`). -/
+theorem size_bound_without_recheck (cfg : Cfg) (hmax : 0 ≤ cfg.max) (hon : cfg.sizeOn = true) (recheck : Bool)
+    (sched : List (Sched κ ν)) :
+    let s := iexec (IState.init (cfg.init : Cache κ ν) recheck) sched
+    (heldSize s.c.entries : Int) ≤ s.c.tracked ∧ s.c.tracked ≤ cfg.max + (s.over : Nat) := by
+  have z := zinv_iexec cfg sched (IState.init (cfg.init : Cache κ ν) recheck) (zinv_init cfg hmax recheck)
+  exact ⟨z.held hon, z.bound hon⟩
+
+/-- A `Set` call that runs alone acts on the shared state exactly as the sequential model's `set`. -/
+theorem sequential_set_is_a_schedule (s : IState κ ν) (k : κ) (v : ν) (ttl : Int) (sz : Nat) :
+    (callRun s (.set k v ttl sz)).c = (set s.c k v ttl sz).1 :=
+  callRun_set_c s k v ttl sz
+
+end
+
+/-- Why the re-check is needed (regression witness for F12c, `corpus/C12/regress-F12c.ops`): WITHOUT it two Sets
+    of 3 bytes that both pass the pre-check on the empty cache (max = 3) leave 6 bytes in the cache. -/
+theorem size_violation_without_recheck_witness :
+    ∃ (cfg : Cfg) (sched : List (Sched Nat Nat)), 0 ≤ cfg.max ∧ cfg.sizeOn = true ∧
+      ¬ ((heldSize (iexec (IState.init (cfg.init : Cache Nat Nat) false) sched).c.entries : Int) ≤ cfg.max) :=
+  ⟨⟨0, true, 3⟩,
+   [.call (.set 1 7 5 3), .call (.set 2 8 5 3), .run 0, .run 1, .run 0, .run 0, .run 1, .run 1],
+   by decide, rfl, by decide⟩
+
+/-- … and WITH the re-check the same schedule refuses the second Set (non-vacuity of `conc_holds`). -/
+example : (fun (s : IState Nat Nat) => (heldSize s.c.entries, s.c.tracked,
+      s.threads.map fun pc => match pc with | .done .setOk => 1 | .done .setFull => 2 | _ => 0))
+    (iexec (IState.init (Cache.init 0 true 3 : Cache Nat Nat) true)
+      [.call (.set 1 7 5 3), .call (.set 2 8 5 3), .run 0, .run 1, .run 0, .run 0, .run 1, .run 1, .run 0, .run 1])
+    = (3, 3, [1, 2]) := by decide
+
+/-- a Get parked between lookup and clock read returns the value it saw although the key was overwritten, and
+    misses when its clock read comes after the expiry (non-vacuity of the all-schedules hit theorem). -/
+example : ((iexec (IState.init (Cache.init 0 false 0 : Cache Nat Nat) true)
+      [.call (.set 1 7 5 1), .run 0, .run 0, .run 0, .run 0, .call (.get 1), .run 1, .call (.get 1), .run 2,
+       .call (.set 1 8 50 1), .run 3, .run 3, .run 3, .run 3, .run 1, .skip 6, .run 2]).threads.map
+      fun pc => match pc with | .done (.got _ (some v) tc) => (v, tc) | _ => (0, 0))
+    = [(0, 0), (7, 0), (0, 0), (0, 0)] := by decide
+
 section
 variable {σ : Type} [DecidableEq σ]
 
@@ -236,6 +339,50 @@ example : ((crun ⟨1000, 100, 100000⟩ (Cache.init 0 false 0)
       .skip 1001, .req 1 2 [(10, 20)], .resp 1 2 [(10, 21)] ⟨5, 200, 6, none, none, none⟩ 101 120,
       .req 1 2 [(10, 21)]] : List (POp Nat))).map fun r => match r.out with | .early .. => 1 | _ => 0)
       = [0, 1, 0, 0, 0, 0, 0] := by decide
+
+/-! ## several caching remedies on the ONE shared plugin cache
+
+`Model/C12Shared.lean`: every operation names the remedy (its `CachingConfig` and number of configured paths) under
+which plugin_runner.go calls the single `CachingPlugin`.  The key is (method, URL, number of configured paths,
+selected (name, value) list) — the remedy's identity, TTL and limits are NOT part of it. -/
+
+section
+variable {σ : Type} [DecidableEq σ]
+
+/-- Connection theorem, all histories over any number of remedies: an early response for a request handled under
+    remedy B is justified by an earlier response that some remedy A could store (body ≤ A's record limit) for the
+    same method, URL, selected path-parameter values (and the same number of configured paths), same
+    status/body/headers, fresh by the STORING remedy's TTL (`t₀ ≤ t ≤ t₀ + TTL_A`); at every probe
+    held ≤ tracked ≤ the largest size limit among the remedies that responded so far. -/
+theorem shared_cache_holds (t0 : Int) (ops : List (SOp σ)) :
+    sholds false (srun (Cache.init t0 false 0) ops) = true := by
+  have := srun_holdsRev ops (Cache.init t0 false 0) [] (sinv_init t0) rfl
+  simpa [sholds] using this
+
+end
+
+/-- What the shared cache does NOT give: isolation between remedies.  Remedy A (TTL 10) stores a response; a
+    request handled under remedy B (TTL 1, same number of configured paths, same selected values) at t = 5 gets
+    A's entry — older than B's own TTL allows.  (`corpus/C12/shared-not-isolated.ops` replays it on the real
+    plugin.)  Both remedies apply to the same method and URL, so as long as both are configured A itself would
+    answer this request the same way; the difference shows once A is removed or its TTL shortened by a policy
+    update while its entries live on.  Observation O4 in notes/C12.md, not a contradiction of C12 as stated. -/
+theorem shared_not_isolated_witness :
+    ∃ (t0 : Int) (ops : List (SOp Nat)),
+      sholds false (srun (Cache.init t0 false 0) ops) = true ∧
+      sholds true (srun (Cache.init t0 false 0) ops) = false :=
+  ⟨0, [.resp ⟨⟨10, 100, 1000⟩, 1⟩ 1 2 [(10, 20)] ⟨5, 200, 6, none, none, none⟩ 3 50, .skip 5,
+       .req ⟨⟨1, 100, 1000⟩, 1⟩ 1 2 [(10, 20)]], by decide, by decide⟩
+
+/-- non-vacuity of `shared_cache_holds`: a different NUMBER of configured paths isolates (keys differ), a shrunken
+    size limit refuses the next store but keeps what is held (60 bytes under the new limit 50). -/
+example : ((srun (Cache.init 0 false 0)
+    ([.resp ⟨⟨10, 100, 1000⟩, 1⟩ 1 2 [(10, 20)] ⟨5, 200, 6, none, none, none⟩ 3 60,
+      .req ⟨⟨10, 100, 1000⟩, 2⟩ 1 2 [(10, 20)], .req ⟨⟨1, 100, 50⟩, 1⟩ 1 2 [(10, 20)],
+      .resp ⟨⟨10, 100, 50⟩, 1⟩ 1 3 [] ⟨5, 200, 6, none, none, none⟩ 3 10, .req ⟨⟨10, 100, 50⟩, 1⟩ 1 3 [],
+      .probe] : List (SOp Nat))).map fun r =>
+        match r.out with | .early .. => 1 | .probed t h _ _ => t + h | _ => 0)
+    = [0, 0, 1, 0, 0, 120] := by decide
 
 section
 variable {σ : Type} [DecidableEq σ]
